@@ -276,7 +276,7 @@ func (e *Engine) newCtx(fn *ssa.Function, c *Contract) *Ctx {
 }
 
 func (e *Engine) newState(ctx *Ctx, fn *ssa.Function, c *Contract) *State {
-	st := &State{ctx: ctx, cells: map[int]*Cell{}, heap: map[string]Term{}, tainted: map[string]bool{}, ghost: map[string]Val{}}
+	st := &State{ctx: ctx, cells: map[int]*Cell{}, heap: map[string]Term{}, tainted: map[string]bool{}, ghost: map[string]Val{}, baseVer: map[string]baseInfo{}, pending: map[string]Term{}}
 	st.fr = &Frame{fn: fn, regs: map[ssa.Value]Val{}, active: map[*ssa.BasicBlock]bool{}, visits: map[*ssa.BasicBlock]int{}, contract: c}
 	return st
 }
@@ -546,8 +546,12 @@ func (e *Engine) ifaceEnv(s *State, fn *ssa.Function, ic *Contract, results []Va
 		}
 	}
 	if len(s.fr.params) > 0 {
-		env.vars["recv"] = s.fr.params[0]
-		env.vars["arg0"] = s.fr.params[0]
+		rv := s.fr.params[0]
+		if _, isIf := rv.T.Underlying().(*types.Interface); !isIf {
+			rv = s.makeIface(types.NewInterfaceType(nil, nil), rv)
+		}
+		env.vars["recv"] = rv
+		env.vars["arg0"] = rv
 	}
 	env.results = results
 	return env
